@@ -8,22 +8,22 @@ import subprocess
 V = os.path.dirname(os.path.dirname(os.path.abspath(__file__)))
 
 CHECKS = {
-    "C01": dict(cat="exploration", tech="differential execution monitor: native binary vs NanoVM on generated programs (runtime monitoring)",
+    "C01": dict(cat="exploration", tech="differential execution monitor: native binary vs NanoVM on generated programs, census cells, builtin boundary tables, hashmap growth tables and hash-colliding strings (runtime monitoring)",
                 text="Differential monitor over executions of the real nanoc-built binary and nano_virt --run on seeded, type-directed generated programs (accepted by an independent reference model first); byte comparison of stdout and exit status. Exploration: held on the programs run, covering the feature sets listed in the evidence.",
                 note="Trusts the program generator's well-typedness and the reference model's filter for partial operations; fastcc substitutes pre-compiled runtime objects of identical sources (cross-checked against the unwrapped cc on a sample).", ref="§4 C01"),
-    "C02": dict(cat="exploration", tech="reference-model monitor (executable spec transcription) + exhaustive operator/boundary tables on both engines",
+    "C02": dict(cat="exploration", tech="reference-model monitor (executable spec transcription) + exhaustive operator/boundary, operator-grouping, builtin-boundary and hashmap tables on both engines",
                 text="Every observation of the native binary and of the VM is compared with an independent Python transcription of SPECIFICATION.md §4-§8 (and of formal/Semantics.v on functions labelled verified); the operator x boundary-value table is enumerated completely.",
                 note="The reference evaluator and the NanoCore transcription are trusted (hand transcription; no Coq/OCaml toolchain in the image).", ref="§4 C02"),
-    "C03": dict(cat="exploration", tech="differential monitor: compile-time evaluator output per shadow block vs the compiled binary's output for the same calls",
+    "C03": dict(cat="exploration", tech="differential monitor: compile-time evaluator output per shadow block vs the compiled binary's output for the same calls (generated programs, census cells, grouping / builtin / hashmap tables)",
                 text="Sentinel-delimited output of the tree-walking evaluator (nanoc --verbose) is compared with the shipped binary and the reference model on generated programs.",
                 note="Trusts the sentinel protocol and the reference model.", ref="§4 C03"),
-    "C04": dict(cat="exploration", tech="stage/termination classifier over executions of accepted generated programs and accepted mutants",
+    "C04": dict(cat="exploration", tech="stage/termination classifier over executions of accepted generated programs, declaration-order and global-initialiser families, census cells and a fixed corpus of accepted mutants",
                 text="Every program the type checker accepts is pushed through both backends; a classifier over exit status, signal and stderr class decides 'stuck' vs normal/documented fault.",
                 note="'Accepted' is observed from the tools' own output; non-terminating accepted mutants are cut by VM fuel/CPU limit and skipped.", ref="§4 C04"),
     "C05": dict(cat="fault_enumeration", tech="rule x context x tool rejection table executed against the real compilers",
                 text="A catalogue of single-point rule violations (ill-formed by construction) is instantiated in every syntactic context and run through nanoc, nano_virt --run and --emit-nvm; exit status, diagnostic, artifact and program output are observed.",
                 note="Mutants are ill-formed by construction w.r.t. the documented static rules; known over-acceptance cells are listed individually in known_findings.json.", ref="§4 C05"),
-    "C06": dict(cat="exploration", tech="gate monitor: nanoc exit/artifact vs reference truth values of shadow assertions",
+    "C06": dict(cat="exploration", tech="gate monitor: nanoc exit/artifact/report vs reference truth values of shadow assertions (generated programs, control-flow grid, name grid for the missing-shadow report)",
                 text="Generated programs with model-computed truth values for every shadow assertion; nanoc must produce a binary iff all are true, name the failing test, and report functions without shadow blocks.",
                 note="Truth values come from the reference model.", ref="§4 C06"),
     "C07": dict(cat="exploration", tech="bytecode identity monitor for prefix vs infix spellings of generated expression trees (exhaustive at depth <= 3)",
@@ -41,13 +41,13 @@ CHECKS = {
     "C11": dict(cat="exploration", tech="exhaustive codec table probe under ASan + assemble(disassemble(m)) round-trip monitor",
                 text="All 256 opcode bytes x operand slots x boundary patterns and all truncation lengths through the real isa_encode/isa_decode; every corpus module through disasm_module/asm_assemble with field-wise comparison.",
                 note="Operand byte layout expectation is computed independently by the probe (little-endian).", ref="§4 C11"),
-    "C12": dict(cat="fault_enumeration", tech="exhaustive bit-flip / burst / truncation / tail fault injection against the real loader under ASan (probe + nano_vm CLI)",
+    "C12": dict(cat="fault_enumeration", tech="exhaustive bit-flip / burst / truncation / tail fault injection against the real loader under ASan (probe + nano_vm CLI + private nano_vmd before/after it served the intact file), also on modules forged to special checksum values",
                 text="Every single-bit flip of every body bit and every truncation length of each compiler-produced module, sampled bursts, tails and magic/version bits are applied and handed to the real nvm_deserialize (ASan+UBSan); a stratified sample goes through nano_vm. Refusal and absence of program output are observed for each fault.",
                 note="Probe links the repository's own objects; modules come from the repository's programs and synthetic ones; bursts are sampled, not exhaustive.", ref="§4 C12"),
     "C13": dict(cat="exploration", tech="structure-aware bytecode fuzzing of loader -> verifier -> VM under ASan/UBSan with instruction budget (hook H1)",
                 text="Mutated, re-checksummed modules and raw byte strings through nvm_deserialize, nvm_verify and vm_execute with fuel; sanitizer reports, signals, and decode errors on verifier-walked paths are the observed events.",
                 note="Termination of the VM is restated as 'within the fuel budget'; signed overflow is not in the UBSan set (the VM wraps by design).", ref="§4 C13"),
-    "C14": dict(cat="exploration", tech="invariant hook: heap registry + in-degree audit at instruction boundaries (hook H2) under ASan",
+    "C14": dict(cat="exploration", tech="invariant hook: heap registry + in-degree and orphan audit at instruction boundaries (hooks H2, H2c) under ASan + live-object growth on churn families",
                 text="refcount >= in-degree and 'reachable => registered' are asserted at instruction boundaries of aliasing-heavy generated programs; churn programs bound live-object growth.",
                 note="Audit walks roots and containers as listed in DESIGN; intern table is weak.", ref="§4 C14"),
     "C15": dict(cat="exploration", tech="differential monitor in-process vs co-process FFI + codec round-trip probe under ASan",
@@ -59,7 +59,7 @@ CHECKS = {
     "C17": dict(cat="exploration", tech="concurrent clients vs standalone differential under ThreadSanitizer with barrier release and injected yields (hook H3)",
                 text="A private TSan daemon serves barrier-released and jittered clients; each client's bytes, error text and exit status must equal the standalone run; TSan reports are collected and de-duplicated.",
                 note="Only interleavings the scheduler produced are covered; absence of a TSan report is not race freedom.", ref="§4 C17"),
-    "C18": dict(cat="fault_enumeration", tech="hostile client behaviour sequences against a private ASan daemon; liveness (PING) and well-formed-client differential after each",
+    "C18": dict(cat="fault_enumeration", tech="hostile client behaviour sequences, descriptor exhaustion (rlimit) and injected accept() failures (strace) against a private ASan daemon; liveness (PING) and well-formed-client differential after each",
                 text="Sampled sequences over the malformed/abandoned-session alphabet interleaved with well-formed clients; daemon alive, PING answered, well-formed results equal standalone, no ASan report.",
                 note="SHUTDOWN excluded from the alphabet; infinite loops cut by fuel hook.", ref="§4 C18"),
     "C19": dict(cat="exploration", tech="configuration-pair output hashing + valgrind memcheck for uninitialised bytes reaching write(2)",
